@@ -97,7 +97,8 @@ type PathState struct {
 	hashPending   map[string][]hashApp // concrete points not yet asserted, per UF name
 	hashSymSeen   map[string]bool
 	learned       map[*Term]interval
-	sigs          map[*Term]*sigProv
+	sigs           map[*Term]*sigProv
+	forbidReported map[string]bool
 	rangeCache    map[*Term]interval
 }
 
